@@ -224,8 +224,8 @@ def judge(run, case, ob):
         print(ob.get("_tb"))
         return "harness"
     if ob.get("_cpu_exhausted") or ob.get("_cpu_budget_fired_at") or (ob.get("_timeout") and ob.get("cpu_s", 0) > 20):
-        at = ob.get("_cpu_exhausted_at") or ob.get("_cpu_budget_fired_at") or "unknown"
-        run.violation(f"C01:{kind}:cpu-budget-exceeded-10x:{at}", f"{kind} via {mode}: CPU time exceeded 10x the budget (2 s + 4 us/byte), still running in {at} ({fam}/{rec.get('op')} of {rec['src']})", rep)
+        at = ob.get("_cpu_exhausted_at") or ob.get("_cpu_budget_fired_at") or ob.get("_stuck_at") or "unknown"
+        run.violation(f"C01:{at}:cpu-budget-exceeded-10x", f"{kind} via {mode}: CPU time exceeded 10x the budget (2 s + 4 us/byte), still running in {at} ({fam}/{rec.get('op')} of {rec['src']})", rep)
         return "hang"
     if ob.get("_oom"):
         run.violation(f"C01:{tag}:{fam}:memory-exhausted", f"{kind} via {mode}: MemoryError escaped under the 1.5 GiB address-space limit ({fam}/{rec.get('op')})", rep)
